@@ -13,7 +13,7 @@ trap 'rm -rf "$TMP"' EXIT
 run_one() { # name prop patch expect outfile
   local name="$1" prop="$2" patch="$3" expect="$4" out="$5"
   local res rc
-  res="$(SEEDTEST_DIR=/tmp/sb-mutants SEEDTEST_LINES=40 tools/seedtest.sh "$patch" "$prop" quick 2>&1)"; rc=$?
+  res="$(SEEDTEST_DIR=${MUTANTS_DIR:-/tmp/sb-mutants} SEEDTEST_LINES=40 tools/seedtest.sh "$patch" "$prop" quick 2>&1)"; rc=$?
   local verdict fps
   if echo "$res" | grep -q "PATCH FAILED"; then verdict="does-not-apply"
   elif echo "$res" | grep -q "BROKEN PATCH"; then verdict="does-not-compile"
